@@ -30,7 +30,7 @@ REACH = [
     "insights/core/plugins.py::rule.process",
 ]
 PLAN = {
-    "quick": {"shards": 8, "cases": 42, "timeout_s": 600, "min_evaluations": 9000,
+    "quick": {"shards": 8, "cases": 72, "timeout_s": 600, "min_evaluations": 9000,
               "min_counters": {"faults_injected": 9000, "exceptions_recorded": 4500, "suite_run_components_calls": 5000}},
     "thorough": {"shards": 16, "cases": 450, "timeout_s": 3000, "min_evaluations": 100000,
                  "min_counters": {"faults_injected": 100000, "suite_run_components_calls": 7000}},
@@ -81,6 +81,17 @@ def gen_case(rng, tier, idx):
     """a fault-free base graph; run_case enumerates the placements"""
     if idx < (2 if tier == "quick" else 10):
         return {"kind": "realgraph", "archive_seed": rng.getrandbits(30), "fault_rate": rng.choice([0.4, 0.7, 0.95])}
+    if idx % 2 == 1:
+        gg = G.gen_spec(rng, tier, max_nodes=10, fault_rate=0.35, allow_seeded=False)
+        for nd in gg["nodes"]:
+            # mostly parsers over lists, many of which give up at the first failing element
+            if nd["kind"] == "parser":
+                nd["continue_on_error"] = rng.random() < 0.3
+                first = nd["written"][0]
+                if isinstance(first, int) and gg["nodes"][first]["kind"] in ("datasource", "impl") and gg["nodes"][first]["outcome"] == "value":
+                    gg["nodes"][first]["multi"] = True
+                    gg["nodes"][first]["nelem"] = 4
+        return {"kind": "concurrent", "graph": gg, "store_skips": rng.random() < 0.5, "host": False, "threads": rng.choice([2, 3, 4])}
     g = G.gen_spec(rng, tier, max_nodes=9 if tier == "quick" else 14, fault_rate=0.0, allow_seeded=False)
     for nd in g["nodes"]:
         if nd["kind"] == "parser":
@@ -190,9 +201,72 @@ def run_realgraph(spec, ctx):
     return False
 
 
+def run_concurrent(spec, ctx):
+    """Several evaluations of ONE graph at the same time, each on its own broker (a service analysing several archives in
+    worker threads): every one of them must end exactly like the evaluation made alone - a failure in one evaluation
+    affects nothing in another."""
+    import sys
+    import threading
+    import time
+    from insights.core import dr
+    from vpmon.props import c04
+    b = G.build(spec["graph"])
+    old = sys.getswitchinterval()
+    try:
+        graph = G.full_graph(b)
+        alone = dr.run(dict(graph), broker=c04.mk_broker(spec, b))
+        d0, _ = c04.digest([alone], b)
+        n = spec["threads"]
+        for round_ in range(4):
+            results = [None] * n
+            gate = threading.Barrier(n)
+
+            def work(j):
+                try:
+                    gate.wait(timeout=10)
+                except threading.BrokenBarrierError:
+                    pass
+                try:
+                    results[j] = dr.run(dict(graph), broker=c04.mk_broker(spec, b))
+                except Exception as ex:
+                    results[j] = ex
+            import random as _random
+            jit = _random.Random(spec["threads"] * 7919 + len(spec["graph"]["nodes"]))
+            b.sleep[0] = lambda: time.sleep(jit.choice([0, 0, 0, 0.0003]))   # bodies yield, as real components do while they read and parse
+            sys.setswitchinterval(1e-6)
+            ts = [threading.Thread(target=work, args=(j,), daemon=True) for j in range(n)]
+            for t in ts:
+                t.start()
+            for t in ts:
+                t.join(60)
+            sys.setswitchinterval(old)
+            b.sleep[0] = None
+            ctx.count("concurrent_evaluation_groups")
+            for j, r in enumerate(results):
+                if r is None:
+                    ctx.count("concurrent_evaluations_not_finished")
+                    continue
+                ctx.count("concurrent_evaluations_compared")
+                if isinstance(r, Exception):
+                    ctx.violation("evaluation-raised", {"exc": repr(r)[:300], "concurrent_evaluations": n})
+                    continue
+                d, _ = c04.digest([r], b)
+                if d != d0:
+                    ctx.violation("evaluation-affected-by-another-evaluation-running-at-the-same-time",
+                                  {"concurrent_evaluations": n, "alone": d0[:600], "concurrent": d[:600]})
+                    return True
+        return True
+    finally:
+        sys.setswitchinterval(old)
+        b.sleep[0] = None
+        b.cleanup()
+
+
 def run_case(spec, ctx):
     if spec.get("kind") == "realgraph":
         return run_realgraph(spec, ctx)
+    if spec.get("kind") == "concurrent":
+        return run_concurrent(spec, ctx)
     if spec.get("kind") == "suite":
         from vpmon.props import c01
         return c01.run_suite(spec, ctx, ID)
